@@ -4,6 +4,7 @@ let () =
   let ic = open_in file in
   let run = match prop with
     | "c08" -> C08.run_line
+    | "c14" | "c15" -> C14.run_line
     | _ -> prerr_endline ("unknown property " ^ prop); exit 2 in
   (try
      while true do
